@@ -179,7 +179,8 @@ pub fn run<K: Kmer + Send + Sync>(c: &GCase) -> Outcome {
 /// real rayon pools of 1..16 threads, repeated, compared with the serial build.
 pub fn extra(tier: &str, rep: &mut Report) {
     use debruijn::kmer::Kmer16;
-    let n_nodes: usize = if tier == "quick" { 120_000 } else { 400_000 };
+    // (node counts that are not multiples of small powers of two: work split into equal chunks must not lose the remainder)
+    let n_nodes: usize = if tier == "quick" { 120_003 } else { 400_003 };
     let pools: &[usize] = if tier == "quick" { &[2, 16] } else { &[1, 2, 3, 4, 8, 16] };
     let mut g = Lcg(4242);
     let mut bg: BaseGraph<Kmer16, u16> = BaseGraph::new(false);
@@ -205,7 +206,7 @@ pub fn extra(tier: &str, rep: &mut Report) {
     let probes: Vec<Kmer16> = (0..50_000).map(|_| mk::<Kmer16>(&g.dna(16))).collect();
     let ask = |d: &DebruijnGraph<Kmer16, u16>| -> Vec<Option<(usize, bool, bool)>> {
         let mut v = vec![];
-        for i in (0..d.len()).step_by(7) {
+        for i in (0..d.len()).step_by(7).chain(d.len().saturating_sub(24)..d.len()) {
             let n = d.get_node(i);
             let s = n.sequence();
             for (km, dir) in [(s.first_kmer::<Kmer16>(), Dir::Right), (s.last_kmer::<Kmer16>(), Dir::Left), (s.first_kmer::<Kmer16>().rc(), Dir::Right), (s.last_kmer::<Kmer16>().rc(), Dir::Left)] {
